@@ -75,12 +75,16 @@ def gen_case(rng, tier, i):
     return case
 
 
-def decay_ok(e, floors):
-    """e[i] at eps[i]; every decade must shrink the error >= 20x unless the float floor is reached."""
+def decay_ok(e, floors, first_free=False):
+    """e[i] at eps[i]; every decade must shrink the error >= 20x unless the float floor is reached.
+    first_free: for a SINGLE signed quantity (one height, one focus position) the value at eps = 0.1 may sit next to a
+    zero crossing of cubic-plus-quintic terms, so the first decade is not constrained at all (the later ones are)."""
     ok, clean = True, 0
     for i in range(len(e) - 1):
         if not np.isfinite(e[i + 1]) or not np.isfinite(e[i]):
             return False, clean
+        if i == 0 and first_free:
+            continue
         # the statement is asymptotic: at eps = 0.1 higher orders may still balance the quadratic term, so the first
         # decade only has to shrink; from 1e-2 downwards every decade must shrink the error >= 20x
         if e[i + 1] <= (0.5 if i == 0 else 0.05) * e[i]:
@@ -229,13 +233,13 @@ def check_case(case, rec):
                           msg=f'real axial focus does not tend to the paraxial back focal position: {["%.2e" % v for v in ef]}')
         else:
             es = np.abs(Y[:, stop - 1]) / scale
-            oks, _ = decay_ok(es, [f / scale for f in floors])
-            rec.check('zero-pupil-ray-to-stop-centre', oks and es[-1] <= max(es[0] * 1e-4, floors[-1] / scale),
+            oks, _ = decay_ok(es, [f / scale for f in floors], first_free=True)
+            rec.check('zero-pupil-ray-to-stop-centre', oks and es[-1] <= max(es[0] * 1e-4, es[1] * 1e-3, floors[-1] / scale),
                       resid=float(es[-1]), tol=1e-6,
                       msg=f'zero-pupil ray does not tend to the centre of the stop: height/scale per decade {["%.2e" % v for v in es]}')
             ei = np.abs(Y[:, -1] - yb[-1]) / scale
-            oki, _ = decay_ok(ei, [f / scale for f in floors])
-            rec.check('image-height-per-unit-field', oki and ei[-1] <= max(ei[0] * 1e-4, floors[-1] / scale),
+            oki, _ = decay_ok(ei, [f / scale for f in floors], first_free=True)
+            rec.check('image-height-per-unit-field', oki and ei[-1] <= max(ei[0] * 1e-4, ei[1] * 1e-3, floors[-1] / scale),
                       resid=float(ei[-1]), tol=1e-6,
                       msg=f'real image height per unit field does not tend to the paraxial image height: {["%.2e" % v for v in ei]}')
     # the same limit at a NON-primary wavelength (dispersive lenses): paraxial side = Paraxial.trace(Hy, Py, wavelength)
